@@ -452,6 +452,8 @@ Other(g) == IF Groups = {g} THEN g ELSE CHOOSE h \in Groups : h # g
 NotifyRoom == /\ NIds \ PushedAll # {}
               /\ Cardinality({u \in Threads : pc[u] = "nf_xchg"}) < Cardinality(NIds \ PushedAll)
 Advance(t) == ip' = [ip EXCEPT ![t] = @ + 1]
+SkipOp == UNCHANGED <<st, ntail, nhead, nnext, futexQ, pc, lv, spur, cur, outstanding, own, tasks,
+                      pushed, regd, before, zeroAfter, fired, ran, zeroSeen, waitRes, earlyF2, earlyOther>>
 Call(t) ==
     /\ pc[t] = "idle" /\ t \notin Workers /\ ip[t] <= Len(Prog[t])
     /\ \E op \in Prog[t][ip[t]] :
@@ -464,8 +466,7 @@ Call(t) ==
               [] k = "wait"   -> CallWait(t, g, "forever")
               [] k = "waitT"  -> CallWait(t, g, "timed")
               [] k = "waitN"  -> CallWait(t, g, "now")
-              [] k = "skip"   -> UNCHANGED <<st, ntail, nhead, nnext, futexQ, pc, lv, spur, cur, outstanding, own, tasks,
-                                             pushed, regd, before, zeroAfter, fired, ran, zeroSeen, waitRes, earlyF2, earlyOther>>
+              [] k = "skip"   -> SkipOp
     /\ Advance(t)
 \* a worker runs the block of some dispatch_group_async: callout start, the nested operations of its body (each a
 \* complete call: the worker's Lib steps bring it back to idle), callout end, the library's leave
@@ -482,8 +483,9 @@ WorkOp(t) ==
             [] op = "asyncS"  -> Enter(t, g, ntk, TRUE)
             [] op = "enterO"  -> Enter(t, h, ntk, FALSE)
             [] op = "leaveO"  -> \E tk \in own[h][t] : Leave(t, h, tk)
-            [] op = "notifyO" -> NotifyRoom /\ CallNotify(t, h)
-            [] op = "notifyS" -> NotifyRoom /\ CallNotify(t, g)
+            \* (no continuation identity left in the model: this block does not notify)
+            [] op = "notifyO" -> IF NotifyRoom THEN CallNotify(t, h) ELSE SkipOp
+            [] op = "notifyS" -> IF NotifyRoom THEN CallNotify(t, g) ELSE SkipOp
     /\ Advance(t)
 WorkEnd(t) ==
     /\ cur[t].tk # 0 /\ ip[t] > Len(BodyOf(cur[t].tk)) /\ ItemEnd(t, cur[t].tk) /\ UNCHANGED ip
